@@ -7,8 +7,10 @@ import (
 	"encoding/json"
 	"fmt"
 	"io"
+	"os"
 	"sort"
 	"strings"
+	"time"
 
 	"github.com/ipfs/go-cid"
 	"github.com/ipld/go-ipld-prime/codec/dagcbor"
@@ -60,7 +62,7 @@ func containerView(r container.Reader) string {
 
 var ioTokenSpecs = map[string]TokSpec{
 	"dlg":     {Kind: "dlg", Alg: "ed25519", Opts: map[string]string{"pol": "eq", "nonce": "12", "meta": "k=str-ascii"}},
-	"inv":     {Kind: "inv", Alg: "ed25519", Opts: map[string]string{"args": "k=int1", "nonce": "12", "iat": "whole"}},
+	"inv":     {Kind: "inv", Alg: "ed25519", Opts: map[string]string{"args": "k=int1", "nonce": "12", "iat": "whole", "meta": "k=str-astral"}},
 	"dlg3":    {Kind: "dlg", Alg: "ed25519", Key: 1, Opts: map[string]string{"nonce": "64", "sub": "other", "cmd": "/a/b"}},
 	"dlgbig":  {Kind: "dlg", Alg: "ed25519", Opts: map[string]string{"nonce": "64", "meta": "k=str-600"}},
 	"dlghuge": {Kind: "dlg", Alg: "ed25519", Key: 2, Opts: map[string]string{"nonce": "12", "meta": "k=bytes-70k"}},
@@ -191,6 +193,13 @@ func (a ioArtefact) named(n string) ioArtefact {
 func (a ioArtefact) fix(kind string) ioArtefact {
 	a.Kind = kind
 	return a
+}
+
+// c18HugeSkip thins the offsets of the fault-free positional sweeps on the huge artefacts: kept are the
+// offsets within 300 bytes of either end, within 40 of a section boundary, within 4 of a multiple of 4096
+// (buffer sizes) and every 389th one inside the big opaque section body.
+func c18HugeSkip(a ioArtefact, k int) bool {
+	return k%389 != 0 && k > 300 && k < len(a.Data)-300 && !c18NearBoundary(a, k) && k%4096 > 4 && k%4096 < 4092
 }
 
 func c18NearBoundary(a ioArtefact, k int) bool {
@@ -367,7 +376,7 @@ func c18ReadSub() *engine.Sub {
 	}
 	return &engine.Sub{
 		Name: "readers",
-		Rule: "every streaming decoder on every matching artefact (sealed and DAG-JSON tokens, containers; plus tokens and containers of 1 MiB and more, for which only the fault-free chunkings are compared): (1) chunk sizes {1,2,3,7,whole} x EOF {separate, with data}: result equals the buffered API's; (2) positional faults: an injected error after k delivered bytes for every k in [0,len] (returned alone, and returned together with the bytes up to k) and an early EOF for every k in [0,len) must yield an error (a CAR cut exactly at a block boundary yields exactly the blocks before it); one Read answering (0, nil) - nothing happened, call again - after k delivered bytes for every k, with chunks {whole, 1, 7}, must not change the result; (3) E3: deviation-bounded DFS over per-Read answers {all, 1 byte, half, last-bytes-with-EOF, early EOF, error, bytes-together-with-error, (0, nil) (at most twice, never twice in a row; explored in a second pass, with one deviation less on inputs of more than 400 bytes)}: fault-free schedules agree with the buffered API, faulty ones return an error; non-trivial = executions with at least one deviation or fault",
+		Rule: "every streaming decoder on every matching artefact (sealed and DAG-JSON tokens, containers; plus tokens and containers of 1 MiB and more, for which only the fault-free chunkings are compared): (1) chunk sizes {1,2,3,7,whole} x EOF {separate, with data}, and the stream cut into two pieces after k bytes for every k (and three: k, 1, rest) - one artefact carries characters of 1 to 4 bytes at several alignments -: result equals the buffered API's; (2) positional faults: an injected error after k delivered bytes for every k in [0,len] (returned alone, and returned together with the bytes up to k) and an early EOF for every k in [0,len) must yield an error (a CAR cut exactly at a block boundary yields exactly the blocks before it); one Read answering (0, nil) - nothing happened, call again - after k delivered bytes for every k, with chunks {whole, 1, 7}, must not change the result; (3) E3: deviation-bounded DFS over per-Read answers {all, 1 byte, half, last-bytes-with-EOF, early EOF, error, bytes-together-with-error, (0, nil) (at most twice, never twice in a row; explored in a second pass of the thorough tier with one deviation less: an empty read combined with one other deviation)}: fault-free schedules agree with the buffered API, faulty ones return an error; non-trivial = executions with at least one deviation or fault",
 		Bound: func(t string) string {
 			return fmt.Sprintf("E3 deviation bound %d (per artefact x API), all offsets for positional faults, 10 chunkings", tierN(t, 2, 3))
 		},
@@ -408,6 +417,9 @@ func c18ReadSub() *engine.Sub {
 					if !emit(&c18ReadCase{Art: a.Name, API: api.Name, Mode: "pos-stall", At: -1}) {
 						return
 					}
+					if !emit(&c18ReadCase{Art: a.Name, API: api.Name, Mode: "pos-split", At: -1}) {
+						return
+					}
 					if a.Huge {
 						continue
 					}
@@ -420,6 +432,12 @@ func c18ReadSub() *engine.Sub {
 		NewCase: func() any { return &c18ReadCase{} },
 		Run: func(ctx *engine.Ctx, c any) {
 			cs := c.(*c18ReadCase)
+			t0 := time.Now()
+			defer func() {
+				if d := time.Since(t0); d > 3*time.Second && os.Getenv("VERIF_SLOW") != "" {
+					fmt.Fprintf(os.Stderr, "SLOW %v %s %s %s\n", d, cs.Art, cs.API, cs.Mode)
+				}
+			}()
 			setup(ctx.Tier)
 			a, api := artByName[cs.Art], apiByName[cs.API]
 			if cs.ArtHex != "" {
@@ -453,6 +471,37 @@ func c18ReadSub() *engine.Sub {
 				} else {
 					ctx.Outcome("stream-equals-buffered")
 				}
+			case "pos-split":
+				// the stream arrives in two pieces (three: the second one byte long) cut after k bytes, for every k
+				lo, hi := 1, len(a.Data)-1
+				if cs.At >= 0 {
+					lo, hi = cs.At, cs.At
+				}
+				for k := lo; k <= hi; k++ {
+					if a.Huge && c18HugeSkip(a, k) {
+						continue
+					}
+					for _, pieces := range [][]int{{k}, {k, 1}} {
+						if a.Huge && len(pieces) > 1 {
+							continue
+						}
+						got, err := api.Stream(&piecesReader{data: a.Data, pieces: pieces})
+						ctx.Eval(1)
+						ctx.Trans(1)
+						ctx.Nontrivial(1)
+						rc := &c18ReadCase{Art: cs.Art, API: cs.API, Mode: cs.Mode, At: k, ArtHex: hex.EncodeToString(a.Data)}
+						switch {
+						case err != nil:
+							ctx.Outcome("stream-error")
+							ctx.Failf(rc, "chunking-breaks-stream/"+tag, "%s fails on %s delivered in pieces of %v bytes + the rest: %v", api.Name, a.Name, pieces, err)
+						case got != want:
+							ctx.Outcome("stream-differs")
+							ctx.Failf(rc, "stream-differs-from-buffered/"+tag, "%s on %s delivered in pieces of %v bytes + the rest differs from the buffered result", api.Name, a.Name, pieces)
+						default:
+							ctx.Outcome("stream-equals-buffered")
+						}
+					}
+				}
 			case "pos-stall":
 				// a Read that answers (0, nil) once, after k delivered bytes: the stream is complete and intact
 				lo, hi := 0, len(a.Data)
@@ -461,7 +510,7 @@ func c18ReadSub() *engine.Sub {
 				}
 				for k := lo; k <= hi; k++ {
 					for _, ch := range []int{0, 1, 7} {
-						if a.Huge && (ch != 0 || (k%97 != 0 && k > 600 && k < len(a.Data)-600 && !c18NearBoundary(a, k))) {
+						if a.Huge && (ch != 0 || c18HugeSkip(a, k)) {
 							continue
 						}
 						got, err := api.Stream(&engine.PosReader{Data: a.Data, Chunk: ch, FailAt: k, Mode: "stall"})
@@ -554,8 +603,12 @@ func c18ReadSub() *engine.Sub {
 				for _, st := range []bool{false, true} {
 					stall = st
 					b := bound
-					if st && len(a.Data) > 400 {
-						b--
+					if st {
+						// a single empty read at every offset is the positional sweep's business; here it is combined
+						// with one more deviation (thorough tier)
+						if b--; b < 2 {
+							continue
+						}
 					}
 					n, capped, err := engine.ExploreEnv(b, maxExec, run, func(env *engine.Env) {
 						c18Judge(ctx, &c18ReadCase{Art: cs.Art, API: cs.API, Mode: cs.Mode, Stall: st}, a, api, env, last, got, gerr, want)
@@ -570,6 +623,39 @@ func c18ReadSub() *engine.Sub {
 			}
 		},
 	}
+}
+
+// piecesReader delivers data in pieces of the given sizes, then everything that is left.
+type piecesReader struct {
+	data   []byte
+	pieces []int
+	pos    int
+	idx    int
+}
+
+func (r *piecesReader) Read(p []byte) (int, error) {
+	if len(p) == 0 {
+		return 0, nil
+	}
+	if r.pos >= len(r.data) {
+		return 0, io.EOF
+	}
+	n := len(r.data) - r.pos
+	if r.idx < len(r.pieces) && r.pieces[r.idx] < n {
+		n = r.pieces[r.idx]
+	}
+	if n > len(p) {
+		// the caller's buffer is smaller than the piece: the piece is continued on the next call
+		n = len(p)
+		if r.idx < len(r.pieces) {
+			r.pieces[r.idx] -= n
+		}
+	} else {
+		r.idx++
+	}
+	copy(p, r.data[r.pos:r.pos+n])
+	r.pos += n
+	return n, nil
 }
 
 func c18Judge(ctx *engine.Ctx, cs *c18ReadCase, a ioArtefact, api readerAPI, env *engine.Env, r *engine.ChoiceReader, got string, gerr error, want string) {
